@@ -334,3 +334,28 @@ Proof.
   intros j H. split; [apply fir_kernels_nth; exact H|apply fir_names_nth; exact H].
 Qed.
 Print Assumptions fir_columns_follow_listed_delays.
+
+(* ---------------------------------------------------------------- (9) polynomial drift: _poly_drift (design_matrix.py l.37-61) *)
+From NV.C07 Require Import PolyModel Proofs4.
+(* for EVERY order and every list of frame times: exactly order+1 columns, and the LAST one is the constant column of
+   ones (column 0 of the powers, which _orthogonalize never touches, moved behind the drifts by the hstack) *)
+Theorem poly_drift_shape_constant_last : forall order ft,
+  length (poly_drift order ft) = S order /\ last (poly_drift order ft) [] = repeat 1%Q (length ft).
+Proof. exact poly_drift_shape. Qed.
+Print Assumptions poly_drift_shape_constant_last.
+
+(* the polynomial drift basis depends on the scan times only through (t - tmin)/(tmax - tmin): moving the time origin
+   by any s and changing the time unit / TR by any factor c > 0 leaves every column unchanged (Leibniz equality of the
+   normalised rationals), for every order and every list of frame times (sorted or not, any length) *)
+Theorem poly_drift_independent_of_time_origin_and_unit : forall order ft c s, (0 < c)%Q ->
+  poly_drift order (map (fun t => c * t + s)%Q ft) = poly_drift order ft.
+Proof. exact poly_drift_affine. Qed.
+Print Assumptions poly_drift_independent_of_time_origin_and_unit.
+
+(* non-vacuity: order 2 on five scans starting at t = 3 with TR = 2 - three columns: centred linear, orthogonalised quadratic
+   (orthogonal to both others, not zero), constant; the shifted and rescaled grid gives literally the same columns *)
+Example poly_drift_order2_five_scans :
+  poly_drift 2 [3; 5; 7; 9; 11]%Q =
+    [[-1 # 2; -1 # 4; 0; 1 # 4; 1 # 2]; [1 # 8; -1 # 16; -1 # 8; -1 # 16; 1 # 8]; [1; 1; 1; 1; 1]]%Q /\
+  poly_drift 2 (map (fun t => (2 # 1) * t + 3)%Q [0; 1; 2; 3; 4]%Q) = poly_drift 2 [0; 1; 2; 3; 4]%Q.
+Proof. vm_compute. auto. Qed.
